@@ -117,7 +117,7 @@ impl SessionStorageBackend for SqliteSessionStore {
             VALUES (?, ?, ?) \
             ON CONFLICT(id) DO UPDATE \
             SET deadline = excluded.deadline, state = excluded.state \
-            WHERE sessions.deadline < unixepoch()",
+            WHERE sessions.deadline <= unixepoch()",
         )
         .bind(id.inner().to_string())
         .bind(deadline_unix)
